@@ -2329,6 +2329,7 @@ class ReShuffleDataset(Dataset):
         else:
             return self.__class__(
                 input_dataset=self.input_dataset.copy(freeze=freeze),
+                rng=self.rng,
             )
 
     @property
@@ -2456,6 +2457,7 @@ class LocalShuffleDataset(Dataset):
         return self.__class__(
             input_dataset=self.input_dataset.copy(freeze=freeze),
             buffer_size=self.buffer_size,
+            rng=self.rng,
         )
 
     @property
